@@ -111,3 +111,16 @@ def run_cvc5(smt2, timeout=None):
         return 'unknown'
     finally:
         os.unlink(path)
+
+
+def fold_const(repo, modname, name):
+    """Constant-fold a module-level name of the real source (e.g. a compiled regex)."""
+    import ast as _ast
+    from .exec import Frame
+    from .repo import FuncInfo
+    ex = Engine(repo)
+    ex.st = State([])
+    mod = repo.module(modname)
+    dummy = FuncInfo(mod, _ast.parse('def f(): pass').body[0], None)
+    ex.frames = [Frame(dummy, {}, mod)]
+    return ex.global_value(mod, name)
